@@ -130,6 +130,7 @@ type vnNet struct {
 	cs     *vnChainState
 	window int64
 	limit  uint64 // rule limit given to the nodes created next (0 = unlimited)
+	dbWrap func(database.Database) database.Database // optional wrapper around the chunk database of the nodes created next
 }
 
 func newVnNet(t *testing.T, n int, window int64) *vnNet {
@@ -162,7 +163,11 @@ func (net *vnNet) newNode(i int, getChunkPeers map[ids.NodeID]p2p.Handler, selfG
 	rules := vnRules{window: net.window, limit: net.limit}
 	signer := warp.NewSigner(v.sk, vnNetworkID, vnChainID)
 	verifier := NewChunkVerifier[dsmrtest.Tx](net.cs, rules)
-	storage, err := NewChunkStorage[dsmrtest.Tx](verifier, memdb.New(), rules)
+	var db database.Database = memdb.New()
+	if net.dbWrap != nil {
+		db = net.dbWrap(db)
+	}
+	storage, err := NewChunkStorage[dsmrtest.Tx](verifier, db, rules)
 	if err != nil {
 		t.Fatalf("verif harness: storage: %v", err)
 	}
